@@ -28,10 +28,15 @@ def stream_bytes(h, *, delimited=True, name=""):
     return wire.enc_delimited([fr]) if delimited else wire.enc_frame(fr)
 
 
-def call_parser(integ, parser, strict, data):
+def call_parser(integ, parser, strict, data, preread=False):
     mod = __import__(f"pyjelly.integrations.{integ}.parse", fromlist=["parse_jelly_flat"])
     inp = io.BytesIO(data)
     if parser == "flat":
+        if preread:      # the documented two-step use: the caller reads the header itself and hands options and frames over
+            from pyjelly.parse.ioutils import get_options_and_frames as _gof  # noqa: PLC0415
+
+            options, frames = _gof(inp)
+            return [repr(x) for x in mod.parse_jelly_flat(inp, frames=frames, options=options, logical_type_strict=strict)]
         return [repr(x) for x in mod.parse_jelly_flat(inp, logical_type_strict=strict)]
     out = []
     for sink in mod.parse_jelly_grouped(inp, logical_type_strict=strict):
@@ -64,12 +69,13 @@ def main(tier: str) -> int:
         data = stream_bytes(h)
         for integ in ("generic", "rdflib"):
             evaluated += 1
+            preread = c["parser"] == "flat" and evaluated % 3 == 0
             try:
-                out = call_parser(integ, c["parser"], c["strict"], data)
+                out = call_parser(integ, c["parser"], c["strict"], data, preread=preread)
                 got, exc = True, None
             except Exception as ex:  # noqa: BLE001
                 out, got, exc = None, False, f"{type(ex).__name__}: {str(ex)[:80]}"
-            key = {"side": "read", "integ": integ, "parser": c["parser"], "strict": c["strict"]}
+            key = {"side": "read", "integ": integ, "parser": c["parser"], "strict": c["strict"], **({"preread": True} if preread else {})}
             rp = {"header": h, "call": c, "hex": data.hex(), "exception": exc}
             if got and not want:
                 why = ("forbidden-type-pair" if h["pt"] in (1, 2, 3) and h["lt"] and ((h["pt"] == 1) != (h["lt"] in (1, 3, 13))) else
